@@ -105,6 +105,10 @@ impl SentPktState {
                 expire_time,
                 ..
             } => {
+                // The expiry period starts over when the packet is declared lost: an acknowledgement
+                // that is merely late must still find the frames of the packet, otherwise data that
+                // was delivered is never credited and gets retransmitted forever.
+                let expire_time = Instant::now() + (expire_time - sent_time);
                 *self = SentPktState::Retransmitted {
                     nframes,
                     sent_time,
